@@ -56,6 +56,9 @@ fn plan(tier: Tier) -> Vec<Workload> {
         Workload::new("histories_ship", tier.pick(15_000, 500_000)).ship(),
         Workload::new("catalogue", tier.pick(20_000, 300_000)),
         Workload::new("catalogue_ship", tier.pick(6_000, 100_000)).ship(),
+        // the optimised build under valgrind memcheck (invalid / uninitialised heap accesses that behaviour does not show)
+        Workload::new("catalogue_memcheck", tier.pick(640, 12_000)).memcheck(),
+        Workload::new("histories_memcheck", tier.pick(320, 6_000)).memcheck(),
         Workload::new("depth", grid(tier).len() as u64),
         Workload::new("depth_ship", grid(tier).len() as u64).ship(),
         // unoptimised build (largest frames; what `cargo test` and a debug CLI run): 2 and 8 MiB stacks, thorough only
@@ -235,7 +238,7 @@ fn catalogue_line(rng: &mut Rng) -> (Vec<String>, Option<String>) {
 fn run_case(ctx: &Ctx, index: u64, rep: &mut Report) {
     let mut rng = ctx.rng(index);
     match ctx.workload.as_str() {
-        "histories" | "histories_ship" => {
+        "histories" | "histories_ship" | "histories_memcheck" => {
             let len = 5 + rng.usize(40);
             let (ops, hg) = hist::generate(&mut rng, len, true);
             let mut sess = Session::new();
@@ -282,7 +285,7 @@ fn run_case(ctx: &Ctx, index: u64, rep: &mut Report) {
                 rep.sample(json!({"workload": ctx.workload, "history": ops.iter().take(30).map(|o| format!("{:?}", o)).collect::<Vec<_>>(), "host_calls": calls, "error_values": errors}));
             }
         }
-        "catalogue" | "catalogue_ship" => {
+        "catalogue" | "catalogue_ship" | "catalogue_memcheck" => {
             let (lines, reply) = catalogue_line(&mut rng);
             let mid_session = rng.coin();
             let mut sess = Session::new();
